@@ -140,6 +140,9 @@ type c10Script struct {
 	ChunkLimit int    // > 0: the mux's receive limit (HttpBody uploads are cut into chunks of this size)
 	Gzip       bool   // gRPC front: the client negotiates gzip message compression
 	Opts       bool   // the mux has pass-through interceptors and a stats handler
+	// BackendFirst: the back-end speaks first (a greeting before it reads anything) and the
+	// client waits for that greeting before it sends its first message
+	BackendFirst bool
 }
 
 func (s c10Script) name() string {
@@ -164,6 +167,9 @@ func (s c10Script) name() string {
 	}
 	if s.ChunkLimit > 0 && s.Shape != "" && s.N > 0 {
 		suffix += fmt.Sprintf("-limit%d", s.ChunkLimit)
+	}
+	if s.BackendFirst {
+		suffix += "-backend-speaks-first"
 	}
 	return fmt.Sprintf("%s-%s-n%d-%s-%s-k%d%s-%s-md:%s%s", s.Front, s.Shape, s.N, hc, rd, s.K, pp, s.Code, s.MD, suffix)
 }
@@ -348,6 +354,9 @@ func c10Scenario(sc c10Script) *e3Scenario {
 	}}
 	client := e3Thread{Name: "client", Body: func(sys any) {
 		s := sys.(*c10Sys)
+		if sc.BackendFirst {
+			sched.Point("client waits for the back-end's greeting", func() bool { return s.rec.Body.Len() > 0 || s.returned })
+		}
 		for i := 0; i < sc.N; i++ {
 			sched.Point("client sends a message", nil)
 			m := s.clientMsg(i)
@@ -383,6 +392,10 @@ func c10Scenario(sc c10Script) *e3Scenario {
 		f := s.stream
 		reads := 0
 		sent := 0
+		if sc.BackendFirst && len(s.replies) > 0 {
+			f.backendSend(s.replies[0])
+			sent = 1
+		}
 		for {
 			if !sc.ReadAll && reads >= sc.R {
 				break
@@ -747,6 +760,9 @@ func c10Scenarios(thorough bool) []*e3Scenario {
 		}
 		scs = append(scs, sc)
 	}
+	// a back-end that speaks first (only here: the real-transport pass cannot tell a parked call
+	// from a slow one without a clock)
+	scs = append(scs, c10Scenario(c10Script{Shape: "bidi", Front: "grpc", N: 1, HalfClose: true, ReadAll: true, K: 2, Code: codes.OK, MD: "none", BackendFirst: true}))
 	for _, s := range c10CodeSweep() {
 		if seen[s.name()] {
 			continue
